@@ -21,30 +21,44 @@ theorem map_symbol_injective : ∀ (l₁ l₂ : List (Fin 58)),
     simp only [List.map_cons, List.cons.injEq] at h
     rw [symbol_injective d e h.1, map_symbol_injective l₁ l₂ h.2]
 
-/-- **base58 is injective on byte strings of one length** -/
-theorem C19_base58_injective (a b : List UInt8) (hl : a.length = b.length) (h : base58 a = base58 b) : a = b := by
+/-- **base58 is injective**: no two byte strings, of whatever lengths, share a text (leading zero bytes are the leading `1`s,
+the rest is the number in canonical base-58 digits) -/
+theorem C19_base58_injective_any (a b : List UInt8) (h : base58 a = base58 b) : a = b := by
   unfold base58 at h
   simp only at h
   have h1 := congrArg String.toList h
   simp only [String.toList_ofList] at h1
   have h2 := List.reverse_inj.mp h1
-  have h3 : a.foldl feedByte [] ++ (a.takeWhile (· == 0)).map (fun _ => (0 : Fin 58))
-      = b.foldl feedByte [] ++ (b.takeWhile (· == 0)).map (fun _ => (0 : Fin 58)) := by
-    exact map_symbol_injective _ _ h2
-  have h4 := congrArg dval h3
   have hz : ∀ l : List UInt8, l.map (fun _ => (0 : Fin 58)) = List.replicate l.length 0 := by
     intro l; induction l with
     | nil => rfl
     | cons _ _ ih => simp [List.replicate_succ, ih]
-  rw [dval_append, dval_append, hz, hz, dval_zeros, dval_zeros, Nat.mul_zero, Nat.mul_zero, Nat.add_zero, Nat.add_zero,
-    digits_bval, digits_bval] at h4
-  exact bval_injective a b hl h4
+  have h3 := map_symbol_injective _ _ h2
+  rw [hz, hz] at h3
+  have h4 := congrArg dval h3
+  rw [dval_append, dval_append, dval_zeros, dval_zeros, Nat.mul_zero, Nat.mul_zero, Nat.add_zero, Nat.add_zero] at h4
+  have hd : a.foldl feedByte [] = b.foldl feedByte [] :=
+    canon_inj _ _ (digits_canon a [] canon_nil) (digits_canon b [] canon_nil) h4
+  rw [hd] at h3
+  have h5 := List.append_cancel_left h3
+  have hlen : (a.takeWhile (· == 0)).length = (b.takeWhile (· == 0)).length := by
+    have := congrArg List.length h5
+    simpa using this
+  have hv : bval a = bval b := by rw [← digits_bval a, ← digits_bval b, hd]
+  obtain ⟨ra, ea, na, va⟩ := split_zeros a
+  obtain ⟨rb, eb, nb, vb⟩ := split_zeros b
+  have hr : ra = rb := nolead_inj ra rb na nb (by rw [← va, ← vb, hv])
+  rw [ea, eb, hlen, hr]
 
-/-- two tails files whose digests differ have different names -/
-theorem C19_name_injective (t₁ t₂ : List (List UInt8))
-    (hlen : (sha256 (fileBytes t₁)).length = (sha256 (fileBytes t₂)).length)
-    (h : fileName t₁ = fileName t₂) : sha256 (fileBytes t₁) = sha256 (fileBytes t₂) :=
-  C19_base58_injective _ _ hlen h
+/-- in particular on byte strings of one length (two digests) -/
+theorem C19_base58_injective (a b : List UInt8) (_hl : a.length = b.length) (h : base58 a = base58 b) : a = b :=
+  C19_base58_injective_any a b h
+
+/-- **two tails files whose digests differ have different names** — content addressing adds no collisions of its own to those
+of the hash function -/
+theorem C19_name_injective (t₁ t₂ : List (List UInt8)) (h : fileName t₁ = fileName t₂) :
+    sha256 (fileBytes t₁) = sha256 (fileBytes t₂) :=
+  C19_base58_injective_any _ _ h
 
 /-! non-vacuity: the hypothesis is the situation of two digests (both 32 bytes) -/
 example : ([1, 2] : List UInt8).length = ([3, 4] : List UInt8).length := rfl
